@@ -32,6 +32,7 @@ func checkC03(r *Report, known []Finding) {
 		return fmt.Sprint(len(m) == 2*(re.NumSubexp()+1))
 	}})
 	runE2E(r, known, e2eSpec{prop: "C03", obs: obs, np: 1500, nh: 10, npT: 20000, nhT: 16, nontriv: func(w string) bool { return w != "nil" && strings.Count(w, " ") >= 3 }})
+	c03EngineTies(r, known, NewRNG(r.Seed))
 	replayKnownExamples(r, known, "C03")
 }
 
